@@ -97,7 +97,8 @@ class C07(Engine):
                               "at_eof": off == len(content),
                               "files": {"x": {"name": f["name"], "base": b, "splices": [[off, off, text]],
                                               "fault_desc": f"garbage({bi},{frag!r},{nl})"}},
-                              "tree": {f["name"]: "@x"}, "ops": [{"op": "cli", "argv": ["--no-colors", f["name"]]}]}
+                              "tree": {f["name"]: "@x"},
+                              "ops": [{"op": "cli", "argv": (["--no-colors"] if (idx % 3) else ["-f", "json"]) + [f["name"]]}]}
                         yield idx, sc
                         idx += 1
             # lost final newline
@@ -142,9 +143,10 @@ class C07(Engine):
                 tree[f"d{j}"] = {f["name"]: f"@x{j}"}
                 argv.append(f"d{j}/{f['name']}")
             mode = rng.random()
-            op = {"op": "cli", "argv": ["--no-colors"] + argv}
+            fmt = ["--no-colors"] if rng.random() < 0.7 else ["-f", "json"]
+            op = {"op": "cli", "argv": fmt + argv}
             if mode < 0.25:
-                op = {"op": "cli", "argv": ["--no-colors", "."], "glob_perms": [rng.randrange(1 << 30)]}
+                op = {"op": "cli", "argv": fmt + ["."], "glob_perms": [rng.randrange(1 << 30)]}
             elif mode < 0.35:
                 op["argv"].append(argv[rng.randrange(len(argv))])
             yield 3_000_000 + i, {"kind": "multi", "fault": "multi_file_garbage", "files": files, "tree": tree, "ops": [op]}
